@@ -40,7 +40,9 @@ type effects struct {
 	R map[string]string
 }
 
-func sharedRoot(path string) bool { return strings.HasPrefix(path, "^") || strings.HasPrefix(path, "$") }
+func sharedRoot(path string) bool {
+	return strings.HasPrefix(path, "^") || strings.HasPrefix(path, "$")
+}
 
 // fnEffects: reads/writes of memory reachable from pointer-like parameters ($i) and captured variables (^x),
 // including repository callees up to the given depth (callee paths are rewritten into the caller's terms).
@@ -174,9 +176,12 @@ func propC08(c *Check) {
 		c.requireFactFrom(pp, "R1", "first-tx-one-message", notFirst+"|"+lit(EQ("1", "len("+msgs+")")), vc, next, "next tx / ACCEPT")
 		c.requireFactFrom(pp, "R1", "first-tx-is-MsgNewEthBlock", notFirst+"|"+lit(msgs+"[0].(*goat/types.MsgNewEthBlock)#1"), vc, next, "next tx / ACCEPT")
 		c.requireFactFrom(pp, "R1", "first-tx-block-verified", notFirst+"|"+lit("(Keeper.verifyEthBlockProposal("+msgs+"[0].(*goat/types.MsgNewEthBlock)#0) == nil)"), vc, next, "next tx / ACCEPT")
-		c.requireFactFrom(pp, "R1", "later-tx-all-messages-inspected", first+"|"+lit("(len("+msgs+") <= φ{(1 + @)|0})"), vc, next, "next tx / ACCEPT")
+		// every message inspected: the inspection loop runs to the end, or the library search over all
+		// messages (any(msgs, · is *MsgNewEthBlock)) answered false
+		anyBlk := "any(" + msgs + ", ·.(*goat/types.MsgNewEthBlock)#1)"
+		c.requireFactFrom(pp, "R1", "later-tx-all-messages-inspected", first+"|"+lit("(len("+msgs+") <= φ{(1 + @)|0})")+"|"+lit("!"+anyBlk), vc, next, "next tx / ACCEPT")
 		// a MsgNewEthBlock in a later tx can only fail
-		bad := p.MatchEdges(pp, regexp.MustCompile(lit(msgs+"[φ{(1 + @)|0}].(*goat/types.MsgNewEthBlock)#1")))
+		bad := p.MatchEdges(pp, regexp.MustCompile(lit(msgs+"[φ{(1 + @)|0}].(*goat/types.MsgNewEthBlock)#1")+"|"+lit(anyBlk)))
 		if len(bad) == 0 {
 			c.Violated("R1", "later-tx-no-MsgNewEthBlock @ "+FuncKey(pp), p.Pos(pp.Pos()), "no type test of later messages against *MsgNewEthBlock reason=not-established")
 		} else {
@@ -197,19 +202,56 @@ func propC08(c *Check) {
 	{
 		c.touch(pm)
 		r := p.R(pm)
+		// the append that collects mempool txs into a slice captured from the enclosing closure
 		var app ssa.Instruction
+		mem := ""
 		for _, b := range pm.Blocks {
 			for _, in := range b.Instrs {
-				if st, ok := in.(*ssa.Store); ok && strings.HasPrefix(r.E(st.Addr), "^new([][]byte)") && strings.HasPrefix(r.E(st.Val), "append(^new([][]byte)") {
-					app = in
+				if st, ok := in.(*ssa.Store); ok {
+					a := r.E(st.Addr)
+					if strings.HasPrefix(a, "^new([") && strings.HasPrefix(r.E(st.Val), "append("+a+", ") {
+						app, mem = in, strings.TrimPrefix(a, "^")
+					}
 				}
 			}
 		}
 		if app == nil {
 			c.Violated("R2", "mempool-append @ "+FuncKey(pm), p.Pos(pm.Pos()), "append to the selected mempool txs not found reason=not-established")
 		} else {
-			pat := fmt.Sprintf(`^\(\(1 \+ len\(\^new\(\[\]\[\]byte\)#0\)\) < %d\)$|^\(\(1 \+ len\(\^new\(\[\]\[\]byte\)#0\)\) <= %d\)$|^\(len\(\^new\(\[\]\[\]byte\)#0\) < %d\)$`, maxTx, maxTx-1, maxTx-1)
-			c.requireFactFrom(pm, "R2", "stop-at-maxTxLen", pat, app, func(in ssa.Instruction) bool { return in == app }, "next append")
+			// how the response is composed decides how many txs a collected length stands for:
+			//   Txs = append([blockTx], mem...)                → 1 + len(mem), mem starts empty
+			//   mem = make(.., 1, ..); mem[0] = blockTx; Txs = mem → len(mem), the slot is counted already
+			outer := pm.Parent()
+			ro := p.R(outer)
+			txsVal, slot0 := "", false
+			for _, b := range outer.Blocks {
+				for _, in := range b.Instrs {
+					if st, ok := in.(*ssa.Store); ok {
+						a := ro.E(st.Addr)
+						if strings.HasSuffix(a, "ResponsePrepareProposal)#0.Txs") {
+							txsVal = ro.E(st.Val)
+						}
+						if a == mem+"[0]" {
+							slot0 = true
+						}
+					}
+				}
+			}
+			L := `len\(\^` + regexp.QuoteMeta(mem) + `\)`
+			pat := ""
+			switch {
+			case oneElemPrepend(txsVal, mem) && regexp.MustCompile(`^new\(\[\]\[\]byte\)#\d+$`).MatchString(mem):
+				pat = fmt.Sprintf(`^\(\(1 \+ %s\) < %d\)$|^\(\(1 \+ %s\) <= %d\)$|^\(%s < %d\)$|^\(%s <= %d\)$`, L, maxTx, L, maxTx-1, L, maxTx-1, L, maxTx-2)
+				c.Held("R2", "response-composition @ "+FuncKey(outer), p.Pos(outer.Pos()), "Txs = [block tx] + collected mempool txs")
+			case txsVal == mem && slot0 && regexp.MustCompile(`^new\(\[\d+\]\[\]byte\)#\d+\[:1\]$`).MatchString(mem):
+				pat = fmt.Sprintf(`^\(%s < %d\)$|^\(%s <= %d\)$|^\(\(1 \+ %s\) <= %d\)$`, L, maxTx, L, maxTx-1, L, maxTx)
+				c.Held("R2", "response-composition @ "+FuncKey(outer), p.Pos(outer.Pos()), "Txs = collected slice whose reserved slot 0 holds the block tx")
+			default:
+				c.Violated("R2", "response-composition @ "+FuncKey(outer), p.Pos(outer.Pos()), "cannot relate the response Txs ("+txsVal+") to the collected mempool txs ("+mem+") reason=not-established")
+			}
+			if pat != "" {
+				c.requireFactFrom(pm, "R2", "stop-at-maxTxLen", pat, app, func(in ssa.Instruction) bool { return in == app }, "next append")
+			}
 		}
 	}
 
@@ -247,11 +289,11 @@ func propC08(c *Check) {
 		c.touch(P)
 		r := p.R(P)
 		want := map[string]string{
-			"new(engine.ForkchoiceStateV1)#0.HeadBlockHash":          "common.BytesToHash(Block.Get()#0.BlockHash)",
+			"new(engine.ForkchoiceStateV1)#0.HeadBlockHash":         "common.BytesToHash(Block.Get()#0.BlockHash)",
 			"new(engine.PayloadAttributes)#0.SuggestedFeeRecipient": "common.BytesToAddress($4.ProposerAddress)",
 			"new(engine.PayloadAttributes)#0.BeaconRoot":            "common.BytesToHash(BeaconRoot.Get()#0)",
 			"new(engine.PayloadAttributes)#0.GoatTxs":               "Keeper.Dequeue()#0",
-			"new(goat/types.MsgNewEthBlock)#0.Proposer":              "Codec.BytesToString($4.ProposerAddress)#0",
+			"new(goat/types.MsgNewEthBlock)#0.Proposer":             "Codec.BytesToString($4.ProposerAddress)#0",
 		}
 		for _, b := range P.Blocks {
 			for _, in := range b.Instrs {
@@ -271,8 +313,8 @@ func propC08(c *Check) {
 		for a := range want {
 			c.Violated("R3", "proposal "+a+" @ "+FuncKey(P), p.Pos(P.Pos()), "store not found reason=not-established")
 		}
-		if calls := p.FindCalls(P, `^TxBuilder\.SetTimeoutHeight\(`); len(calls) == 1 && strings.HasSuffix(p.CallStr(calls[0]), ", $4.Height)") {
-			c.Held("R3", "proposal timeout-height @ "+FuncKey(P), p.InstrPos(calls[0]), "timeout height = proposal height (matches the ante rule)")
+		if calls := p.FindCallsDeep(P, `^TxBuilder\.SetTimeoutHeight\(`); len(calls) == 1 && strings.HasSuffix(calls[0].Str, ", $4.Height)") {
+			c.Held("R3", "proposal timeout-height @ "+FuncKey(P), p.InstrPos(calls[0].Call), "timeout height = proposal height (matches the ante rule)")
 		} else {
 			c.Violated("R3", "proposal timeout-height @ "+FuncKey(P), p.Pos(P.Pos()), "timeout height is not set to the proposal height reason=not-established")
 		}
@@ -372,7 +414,7 @@ func propC08(c *Check) {
 			}
 		}
 	}
-	c.Floor("R5", "errgroup closures", nClosures, 4)
+	c.Floor("R5", "errgroup closures", nClosures, 2)
 }
 
 func keys(m map[string]string) []string {
@@ -382,4 +424,26 @@ func keys(m map[string]string) []string {
 	}
 	sort.Strings(out)
 	return out
+}
+
+// oneElemPrepend: v is append([x], mem) with exactly one literal element x.
+func oneElemPrepend(v, mem string) bool {
+	if !strings.HasPrefix(v, "append([") || !strings.HasSuffix(v, "], "+mem+")") {
+		return false
+	}
+	inner := v[len("append([") : len(v)-len("], "+mem+")")]
+	depth := 0
+	for _, ch := range inner {
+		switch ch {
+		case '(', '[', '{':
+			depth++
+		case ')', ']', '}':
+			depth--
+		case ',':
+			if depth == 0 {
+				return false
+			}
+		}
+	}
+	return depth == 0 && inner != ""
 }
